@@ -43,11 +43,22 @@ LongStarts == {Ones(61), <<45>> \o Ones(61), Ones(30) \o <<46>> \o Ones(30), One
                <<45>> \o Rep(101, 61), <<45>> \o Rep(46, 61), <<91, 45>> \o Rep(45, 61), <<49>> \o Rep(101, 61)}
 
 \* nesting bookkeeping: complete empty containers and openers, so that depth accounting errors show within a few units
+\* strings that end in an escaped backslash / contain a quote or brackets: nothing inside a string counts as nesting
 NestUnits == Byte({91, 93, 44, 125, 49}) \cup {<<123, 125>>, <<91, 93>>, <<123, 34, 97, 34, 58>>}
+             \cup {<<34, 92, 92, 34>>, <<34, 91, 34>>}
 Units == CASE U = "nest" -> NestUnits [] U = "tok" -> TokUnits [] U = "str" -> StrUnits [] U = "num" -> NumUnits [] U = "lit" -> LitUnits
            [] U = "ws" -> WsUnits [] U = "long" -> Byte({49, 46, 101, 93}) [] OTHER -> {}
 \* "big": long literals, wide containers, deep nesting; "allbytes": every byte value in every syntactic position (no growth: MaxUnits = 0)
-Starts == CASE U = "str" -> {<<34>>, <<123, 34>>} [] U = "long" -> LongStarts [] U = "big" -> BigParseTexts [] U = "bigq" -> BigParseTextsQ [] U = "allbytes" -> AllByteTexts [] OTHER -> {<<>>}
+\* "deep": complete texts nested up to two levels beyond the limit, bare or behind a first element / member that is a string ending in an
+\* escaped backslash, holding a quote or holding brackets (nothing inside a string counts as nesting); growth by units stops at the first
+\* refused bracket, so complete over-deep texts only come from here
+RepSeq(u, n) == IF n = 0 THEN <<>> ELSE [i \in 1..(n * Len(u)) |-> u[Rem(i - 1, Len(u)) + 1]]
+DeepPrefixes == {<<>>, <<91, 34, 92, 92, 34, 44>>, <<91, 34, 92, 34, 34, 44>>, <<91, 34, 91, 91, 34, 44>>, <<91, 34, 93, 34, 44>>, <<123, 34, 107, 92, 92, 34, 58>>, <<91, 49, 44>>}
+ClosePrefix(p) == IF p = <<>> THEN <<>> ELSE IF p[1] = 91 THEN <<93>> ELSE <<125>>
+DeepTexts(lim) == UNION {{p \o RepSeq(<<91>>, d) \o leaf \o RepSeq(<<93>>, d) \o ClosePrefix(p),
+                     p \o RepSeq(<<123, 34, 97, 34, 58>>, d) \o <<49>> \o RepSeq(<<125>>, d) \o ClosePrefix(p)}
+                      : p \in DeepPrefixes, d \in 1..(lim + 2), leaf \in {<<>>, <<49>>}}
+Starts == CASE U = "deep" -> DeepTexts(NestingLimit) [] U = "str" -> {<<34>>, <<123, 34>>} [] U = "long" -> LongStarts [] U = "big" -> BigParseTexts [] U = "bigq" -> BigParseTextsQ [] U = "allbytes" -> AllByteTexts [] OTHER -> {<<>>}
 
 \* ---- L1 classification ---------------------------------------------------------------------------------
 Front(b) == SubSeq(b, 1, Len(b) - 1)
